@@ -182,7 +182,7 @@ def conn_half(ctx, verdict, cov, quick):
     scfg = core.cfg_variant(ctx, "C17_deliver.cfg", "C17_deliver_sim.cfg",
                             {"Sizes": "{0, 1, 2, 3, 5, 6}", "MaxMsgs": 3, "MaxPings": 0},
                             drop_view=True, drop_properties=True)
-    nsim = 150 if quick else 2500
+    nsim = 150 if quick else 1500
     pref = os.path.join(ctx.work, "sim")
     rs = ctx.tlc("C17_mc", scfg, simulate="file=%s,num=%d" % (pref, nsim), depth=45, seed=ctx.seed, workers=1,
                  timeout=600, label="deliver_sim")
@@ -205,7 +205,7 @@ def conn_half(ctx, verdict, cov, quick):
     # ---- 3. replay on real MConnections
     binp = ctx.go_build_test("p2p/conn", ["zz_verif_c17_test.go"])
     inp = {"cfg": MCCFG, "scheds": scheds, "hostile": hostile,
-           "random": 150 if quick else 3000, "concurrent": 40 if quick else 600, "hrandom": 150 if quick else 3000}
+           "random": 150 if quick else 1500, "concurrent": 40 if quick else 400, "hrandom": 150 if quick else 1200}
     rows, crashes = run_resilient(ctx, binp, "^TestVerifC17$", inp, os.path.join(ctx.work, "conn.ndjson"), "conn")
     nunits = sum(1 for r in rows if r.get("ev") == "Reset")
     want = len(scheds) + len(hostile) + inp["random"] + inp["concurrent"] + inp["hrandom"]
